@@ -500,6 +500,10 @@ where
                 }
             }
             ([al, ash @ ..], [bl, bsh @ ..]) => {
+                // The rows of an argument, which may be empty rows that get filled
+                fn rows<T>(data: &[T], row_count: usize, row_len: usize) -> impl Iterator<Item = &[T]> {
+                    (0..row_count).map(move |i| &data[i * row_len..(i + 1) * row_len])
+                }
                 let a_row_len = ash.iter().product();
                 let b_row_len = bsh.iter().product();
                 let c_row_len = c.len() / al.max(bl);
@@ -510,9 +514,8 @@ where
                                 *c = f(*a, *b);
                             }
                         } else {
-                            for ((a, b), c) in a
-                                .chunks_exact(a_row_len)
-                                .zip(b.chunks_exact(b_row_len))
+                            for ((a, b), c) in rows(a, *al, a_row_len)
+                                .zip(rows(b, *bl, b_row_len))
                                 .zip(c.chunks_exact_mut(c_row_len))
                             {
                                 use_new_fill(a, b, c, ash, bsh, fill, f);
@@ -523,29 +526,21 @@ where
                         let a_fill_row = vec![fill.value; a_row_len];
                         if fill.is_left() {
                             let a_iter = repeat_n(a_fill_row.as_slice(), *bl - *al)
-                                .chain(a.chunks_exact(a_row_len));
+                                .chain(rows(a, *al, a_row_len));
                             for ((a, b), c) in a_iter
-                                .zip(b.chunks_exact(b_row_len))
+                                .zip(rows(b, *bl, b_row_len))
                                 .zip(c.chunks_exact_mut(c_row_len))
                             {
                                 use_new_fill(a, b, c, ash, bsh, fill, f);
                             }
                         } else {
-                            let a_iter = a
-                                .chunks_exact(a_row_len)
-                                .chain(repeat(a_fill_row.as_slice()));
-                            if b_row_len == 0 {
-                                let b = vec![fill.value; a_row_len];
-                                for (a, c) in a_iter.zip(c.chunks_exact_mut(c_row_len)) {
-                                    use_new_fill(a, &b, c, ash, bsh, fill, f);
-                                }
-                            } else {
-                                for ((a, b), c) in a_iter
-                                    .zip(b.chunks_exact(b_row_len))
-                                    .zip(c.chunks_exact_mut(c_row_len))
-                                {
-                                    use_new_fill(a, b, c, ash, bsh, fill, f);
-                                }
+                            let a_iter =
+                                rows(a, *al, a_row_len).chain(repeat(a_fill_row.as_slice()));
+                            for ((a, b), c) in a_iter
+                                .zip(rows(b, *bl, b_row_len))
+                                .zip(c.chunks_exact_mut(c_row_len))
+                            {
+                                use_new_fill(a, b, c, ash, bsh, fill, f);
                             }
                         }
                     }
@@ -553,31 +548,21 @@ where
                         let b_fill_row = vec![fill.value; b_row_len];
                         if fill.is_left() {
                             let b_iter = repeat_n(b_fill_row.as_slice(), *al - *bl)
-                                .chain(b.chunks_exact(b_row_len));
-                            for ((a, b), c) in a
-                                .chunks_exact(a_row_len)
+                                .chain(rows(b, *bl, b_row_len));
+                            for ((a, b), c) in rows(a, *al, a_row_len)
                                 .zip(b_iter)
                                 .zip(c.chunks_exact_mut(c_row_len))
                             {
                                 use_new_fill(a, b, c, ash, bsh, fill, f);
                             }
                         } else {
-                            let b_iter = b
-                                .chunks_exact(b_row_len)
-                                .chain(repeat(b_fill_row.as_slice()));
-                            if a_row_len == 0 {
-                                let a = vec![fill.value; b_row_len];
-                                for (b, c) in b_iter.zip(c.chunks_exact_mut(c_row_len)) {
-                                    use_new_fill(&a, b, c, ash, bsh, fill, f);
-                                }
-                            } else {
-                                for ((a, b), c) in a
-                                    .chunks_exact(a_row_len)
-                                    .zip(b_iter)
-                                    .zip(c.chunks_exact_mut(c_row_len))
-                                {
-                                    use_new_fill(a, b, c, ash, bsh, fill, f);
-                                }
+                            let b_iter =
+                                rows(b, *bl, b_row_len).chain(repeat(b_fill_row.as_slice()));
+                            for ((a, b), c) in rows(a, *al, a_row_len)
+                                .zip(b_iter)
+                                .zip(c.chunks_exact_mut(c_row_len))
+                            {
+                                use_new_fill(a, b, c, ash, bsh, fill, f);
                             }
                         }
                     }
